@@ -137,14 +137,13 @@ func SpawnWorkers(c Cfg, n int, extraEnv func(i int) []string, gomaxprocs func(i
 		}(i)
 	}
 	wg.Wait()
-	for _, e := range errs {
+	// A worker that left no result is harness trouble (exit 2) - unless some other worker
+	// of the run reports a violation: a tree that makes one process hang or die under the
+	// watchdog and another one report the same hang properly has been decided.  Finish
+	// makes that call over all groups of workers; here the loss is only recorded.
+	for i, e := range errs {
 		if e != "" {
-			Fatal2("%s", e)
-		}
-	}
-	for _, p := range parts {
-		if p.HarnessErr != "" {
-			Fatal2("worker %d: %s", p.Worker, p.HarnessErr)
+			parts[i] = &Partial{Worker: i, Counters: Counters{"worker_processes_lost_without_result": 1}, HarnessErr: e}
 		}
 	}
 	return parts
@@ -222,6 +221,7 @@ type Merged struct {
 	Twins       int64
 	Violations  []ViolationRec
 	Samples     []json.RawMessage
+	HarnessErrs []string
 }
 
 func Merge(parts []*Partial) Merged {
@@ -240,6 +240,9 @@ func Merge(parts []*Partial) Merged {
 		}
 		m.Counters.Merge(p.Counters)
 		m.Violations = append(m.Violations, p.Violations...)
+		if p.HarnessErr != "" {
+			m.HarnessErrs = append(m.HarnessErrs, fmt.Sprintf("worker %d: %s", p.Worker, p.HarnessErr))
+		}
 		if len(m.Samples) < 3 && len(p.Samples) > 0 {
 			m.Samples = append(m.Samples, p.Samples[0])
 		}
@@ -257,6 +260,19 @@ func Merge(parts []*Partial) Merged {
 
 // Finish prints verdict lines, writes the evidence file and returns the exit code.
 func Finish(c Cfg, level string, m Merged, rule string, extra map[string]interface{}, assumptions []string, start time.Time) int {
+	if len(m.HarnessErrs) > 0 {
+		unknown := 0
+		probe := NewReporter(c.Property)
+		for _, v := range m.Violations {
+			if !probe.IsKnown(v.Sig) {
+				unknown++
+			}
+		}
+		if unknown == 0 {
+			Fatal2("%s", strings.Join(m.HarnessErrs, "\n"))
+		}
+		fmt.Fprintf(os.Stderr, "note: %d worker(s) left no result while others report violations; first: %s\n", len(m.HarnessErrs), Trunc(m.HarnessErrs[0], 400))
+	}
 	rep := NewReporter(c.Property)
 	// report each (class, sig) once, the shortest replay first
 	seen := map[string]bool{}
